@@ -37,7 +37,7 @@ def run(ctx):
     # the whole life of a daemon: chronyd answering, a signal delivered on the way, the segment sampled every 10 ms
     for sig in ("", "SIGUSR1", "SIGUSR2", "SIGHUP", "SIGCONT", "SIGWINCH", "SIGURG", "SIGCHLD", "SIGALRM", "SIGTERM", "SIGINT"):
         rates.append("50+life" + sig)
-    rates += ["7+life", "omit+lifeSIGUSR1", "4294967+lifeSIGUSR1", "50+lifeREFUSE", "7+lifeREFUSE"]
+    rates += ["7+life", "omit+lifeSIGUSR1", "4294967+lifeSIGUSR1", "50+lifeREFUSE", "7+lifeREFUSE", "50+lifeDIE", "7+lifeDIE", "omit+lifeDIE", "4294967+lifeDIE"]
     # the daemon's main thread held back after each thread spawn (a starved or stopped process at start-up)
     rates += ["50+slowspawn", "7+slowspawn", "omit+slowspawn", "4294968+slowspawn"]
     rates = list(dict.fromkeys(rates))
@@ -53,6 +53,7 @@ def run(ctx):
     viol, samples = [], []
     n = 0
     life_runs = life_samples = lost_life = 0
+    die_lives = [0, 0]
     published = refused = 0
     classes = {}
     lost = 0
@@ -80,6 +81,9 @@ def run(ctx):
             if r.get("life"):
                 lf = r["life"]
                 life_runs += 1
+                if lf["signal"] == "DIE":
+                    die_lives[0] += 1
+                    die_lives[1] += 0 if lf["alive_at_end"] else 1
                 life_samples += lf["samples"]
                 wrong = {k: n_ for k, n_ in lf["drift_values_seen"].items() if want is None or int(k) != want}
                 if wrong:
@@ -135,13 +139,14 @@ def run(ctx):
     coverage = {
         "evaluations": n,
         "distinct_nontrivial": len(rates),
-        "rule": "each evaluation starts the release `clockbound` binary (guard off, as shipped) in its own mount namespace with a private /run and no chronyd, with one --max-drift-rate value: omitted, 0, 1, 50, the largest representable 4294967, the first wrapping 4294968, 2^31, 2^32-1, 2^32, -1, 'abc', values around every multiple of 2^32/1000, random representable and non-representable values; a few values again with the PHC options (private /sys) and with --json-output; restarts with another value over the segment the previous instance published; other spellings of a number (decimals, exponent, sign, spaces: exact rational x 1000 or refusal); whole-life runs (chronyd stand-in answering, one of 10 signals delivered after 1.6 s, the max-drift field sampled every 10 ms for 4.2 s: the configured value throughout, whatever the daemon does on the signal); starts with the spawning thread held back 300 ms after each thread creation (strace delay injection); "
+        "rule": "each evaluation starts the release `clockbound` binary (guard off, as shipped) in its own mount namespace with a private /run and no chronyd, with one --max-drift-rate value: omitted, 0, 1, 50, the largest representable 4294967, the first wrapping 4294968, 2^31, 2^32-1, 2^32, -1, 'abc', values around every multiple of 2^32/1000, random representable and non-representable values; a few values again with the PHC options (private /sys) and with --json-output; restarts with another value over the segment the previous instance published; other spellings of a number (decimals, exponent, sign, spaces: exact rational x 1000 or refusal); whole-life runs (chronyd stand-in answering, one of 10 signals delivered after 1.6 s, the max-drift field sampled every 10 ms for 4.2 s: the configured value throughout, whatever the daemon does on the signal; also lives in which a worker thread dies after 1.6 s on a chronyd reply it cannot digest and the daemon winds down, sampled until 4.2 s); starts with the spawning thread held back 300 ms after each thread creation (strace delay injection); "
                 "the max-drift field is read from the segment at the offset PROTOCOL.md gives (56) after the first publication, or the exit status is taken; oracle: publishes exactly 1000 x rate (1000 when omitted) or exits non-zero without publishing; distinct_nontrivial = distinct rate values",
         "samples": samples,
         "published": published,
         "refused": refused,
         "long_lives_of_the_writer_thread": life_info,
         "whole_life_runs": life_runs,
+        "lives_with_a_worker_thread_dying": {"runs": die_lives[0], "daemon_had_exited_by_the_end": die_lives[1]},
         "whole_life_segment_samples": life_samples,
         "classes": classes,
     }
